@@ -9,8 +9,12 @@ c_GENVALS == [o1 |-> [k |-> "k4", p |-> 2], o2 |-> [k |-> "k2", p |-> 1]]
 \* truncated powers (power = floor(amount / 10))
 c_GENVALS_sub == [o1 |-> [k |-> "k4", p |-> 20], o2 |-> [k |-> "k2", p |-> 10]]
 c_DEVS_none == {}
-\* the current tree
-c_DEVS_code == {"L3", "LEAK", "ACT", "L17", "WINDOW", "PCHOOK"}
+\* the current tree: the key-registry hooks repaired (b16d110: always schedule), the precompiles built
+\* after SetHooks (103357a); what is left is the latent write outside the cache context (L17)
+\* design of the current tree without listed deviations (exhaustive check of the properties)
+c_DEVS_design == {"ALWAYS", "L17"}
+\* (if 103357a is NOT applied: c_DEVS_design \cup {"PCHOOK"}, see NOTES)
+c_DEVS_code == c_DEVS_design
 \* regression guard: the deviations the properties must be able to see (pre-fix tree)
 c_DEVS_guard == {"L3", "LEAK", "ACT", "L17", "WINDOW", "PCHOOK"}
 =============================================================================
